@@ -186,6 +186,8 @@ class McastHarness:
         e_count, e_cs = env.lookup_env("count"), env.lookup_env("connectable_subscription")
         if e_count is None or e_cs is None:
             raise Unsupported("ref_count_: no `count` / `connectable_subscription` cells (drift)")
+        from .cells import require_known
+        require_known(sub, {"count", "connectable_subscription"}, uid)
         self.rec(ctx, uid + "/application/starts-with-no-subscriber-and-no-connection", e_count.vars["count"] == 0 and e_cs.vars["connectable_subscription"] is None)
         n0 = ctx.fresh("count", "int")
         ctx.assume(n0.t >= 0)
@@ -267,6 +269,8 @@ class McastHarness:
         e_count, e_conn = env.lookup_env("count"), env.lookup_env("is_connected")
         if e_count is None or e_conn is None:
             raise Unsupported("auto_connect: no `count` / `is_connected` cells (drift)")
+        from .cells import require_known
+        self.cells_seen = require_known(sub, {"count", "is_connected", "connectable_subscription"}, uid)
         k = ctx.fresh("arrived", "int")
         ctx.assume(k.t >= 0)
 
